@@ -168,7 +168,7 @@ func main() {
 		args := argsOf(c)
 		done := make(chan *vdrv.Result, 1)
 		go func() {
-			done <- vdrv.Run(vdrv.Opts{Args: args, Fetch: func(string) (*profile.Profile, error) { return p.Copy(), nil }})
+			done <- vdrv.Run(vdrv.Opts{Args: args, RealSym: true, Fetch: func(string) (*profile.Profile, error) { return p.Copy(), nil }})
 		}()
 		var r *vdrv.Result
 		select {
